@@ -1109,7 +1109,7 @@ impl G<'_> {
                 // mnemonic: blanks on both sides
                 let (t, ty) = self.r.pick(MNEMONIC_OPS);
                 let start = self.pos();
-                self.put(" ");
+                { let t__ = self.r.pick(&[" ", " ", "\n", " \n", "\r\n", "\t \n "]); self.put(t__) };
                 let end = self.pos();
                 self.p.marks.push(Mark::Insig { start, end, ctx: "before-mnemonic" });
                 let pos = self.pos();
@@ -1128,7 +1128,7 @@ impl G<'_> {
                 // blanks (not comments) may precede an operator
                 if self.r.chance(1, 2) {
                     let start = self.pos();
-                    { let t__ = self.r.pick(&[" ", "  ", "\n"]); self.put(t__) };
+                    { let t__ = self.r.pick(&[" ", "  ", "\n", " \n", "\t\n", "\r\n", " \r\n  ", "\n  ", " \n ", "  \n\n"]); self.put(t__) };
                     let end = self.pos();
                     self.p.marks.push(Mark::Insig { start, end, ctx: "before-op" });
                 }
